@@ -9,14 +9,6 @@
 
 /// UTF-8 encoding of a string view (uninterpreted; std: a `str` IS its UTF-8 bytes)
 pub uninterp spec fn utf8_bytes(s: Seq<char>) -> Seq<u8>;
-/// `String::from_utf8_lossy(bytes)`: the decoded text, invalid sequences replaced by U+FFFD (uninterpreted)
-pub uninterp spec fn lossy_utf8_spec(b: Seq<u8>) -> Seq<char>;
-
-/// std doc of `from_utf8_lossy`: "If our byte slice is valid UTF-8 ... returns it unchanged"; the
-/// bytes of a `str` are valid UTF-8. Used only by the sanity lemma `lemma_unquote_plain`.
-pub broadcast axiom fn axiom_lossy_roundtrip(s: Seq<char>)
-    ensures #[trigger] lossy_utf8_spec(utf8_bytes(s)) == s;
-
 /// the path is wrapped in double quotes: `path.strip_prefix('"').and_then(|p| p.strip_suffix('"'))`
 pub open spec fn strip_quotes_spec(s: Seq<char>) -> Option<Seq<char>> {
     if s.len() >= 2 && s[0] == '"' && s.last() == '"' { Some(s.subrange(1, s.len() - 1)) } else { None }
@@ -90,11 +82,12 @@ pub open spec fn git_quoted_wf(s: Seq<u8>) -> bool
     } else { false }
 }
 
-/// the path as git meant it
-pub open spec fn unquote_spec(path: Seq<char>) -> Seq<char> {
+/// the path as git meant it: its BYTES (a file name need not be valid UTF-8; git writes such bytes as
+/// octal escapes). C15: "diff paths are resolved exactly as git wrote them".
+pub open spec fn unquote_bytes_spec(path: Seq<char>) -> Seq<u8> {
     match strip_quotes_spec(path) {
-        Some(inner) => lossy_utf8_spec(c_unquote_spec(utf8_bytes(inner))),
-        None => path,
+        Some(inner) => c_unquote_spec(utf8_bytes(inner)),
+        None => utf8_bytes(path),
     }
 }
 
@@ -120,11 +113,11 @@ pub fn verif_str_bytes<'a>(s: &'a str) -> (r: DiffBytes<'a>)
     ensures r.pending() == utf8_bytes(s@),
 { DiffBytes { it: s.bytes() } }
 
-/// `String::from_utf8_lossy(&v).into_owned()`
+/// `s.as_bytes().to_vec()`: the UTF-8 bytes of the text (std: a `str` IS its UTF-8 bytes)
 #[verifier::external_body]
-pub fn verif_from_utf8_lossy(v: &Vec<u8>) -> (r: String)
-    ensures r@ == lossy_utf8_spec(v@),
-{ String::from_utf8_lossy(v).into_owned() }
+pub fn verif_str_to_byte_vec(s: &str) -> (r: Vec<u8>)
+    ensures r@ == utf8_bytes(s@),
+{ s.as_bytes().to_vec() }
 
 // ---- proof helpers (verified) -------------------------------------------------------------------
 pub proof fn lemma_push_concat(a: Seq<u8>, x: u8, r: Seq<u8>)
@@ -155,9 +148,8 @@ pub proof fn lemma_unquote_plain(path: Seq<char>)
         strip_quotes_spec(path) is Some,
         forall|i: int| 0 <= i < utf8_bytes(strip_quotes_spec(path).unwrap()).len() ==> #[trigger] utf8_bytes(strip_quotes_spec(path).unwrap())[i] != 0x5c,
     ensures
-        unquote_spec(path) == strip_quotes_spec(path).unwrap(),
+        unquote_bytes_spec(path) == utf8_bytes(strip_quotes_spec(path).unwrap()),
 {
-    broadcast use axiom_lossy_roundtrip;
     lemma_unquote_no_backslash(utf8_bytes(strip_quotes_spec(path).unwrap()));
 }
 
